@@ -456,7 +456,7 @@ def rule_semi(m, modules):
                         continue
                 if cnt != want:
                     bad = True
-                    res.bad("T-SEMI:family:cover:%s:count=%d" % ("all-old" if want == 0 else "some-new", cnt), where,
+                    res.bad("T-SEMI:family:cover:%s" % ("all-old-enumerated" if want == 0 else ("missed" if cnt == 0 else "overlap")), where,
                             "matches labelled %s are enumerated by %d sub-rules (expected %d); members: %s"
                             % (dict((k[0], v) for k, v in labelling.items()), cnt, want, [[a.age for a in rt.atoms] for rt in members]),
                             {"labelling": list(labs), "members": [[a.raw for a in rt.atoms] for rt in members]})
